@@ -103,8 +103,23 @@ class Site:
         return "%s | %s %s | %s" % (self.fn.path, self.kind, self.what, self.sig())
 
 
+def _canon_try(e):
+    """`x?` and `match x { Ok(v) => v, .. }` name the same value: render the success payload of Try::branch(x)
+    as the Ok payload of x, so that a site's key does not depend on which spelling propagates the error"""
+    if not isinstance(e, tuple) or not e:
+        return e
+    if e[0] == "as" and e[2] == "Continue":
+        inner = strip(e[1])
+        if inner[0] == "call" and inner[1] == "core::ops::try_trait::Try::branch" and inner[2]:
+            return ("as", _canon_try(inner[2][0]), "Ok")
+    return tuple(_canon_try(x) if isinstance(x, tuple) else x for x in e)
+
+
 def _sig(e):
-    return show(deep_strip(e), 4)
+    e = deep_strip(e)
+    if not os.environ.get("L4SA_NO_CANON_TRY"):
+        e = deep_strip(_canon_try(e))
+    return show(e, 4)
 
 
 def _may_panic(callee):
@@ -210,6 +225,15 @@ def _blocks_defining(fn, l):
     return {b for (dp, b, i, kind, payload) in fn.defs(l)}
 
 
+def _is_unsigned(fn, l):
+    try:
+        ty = fn.locals[l]
+        ty = ty.get("ty") if isinstance(ty, dict) else ty
+    except Exception:
+        return False
+    return ty in ("u8", "u16", "u32", "u64", "u128", "usize")
+
+
 def _edge_facts_nonzero(fn, l):
     """edges (a,b) on which local l (or a copy of it) is known != 0 / >= 1"""
     edges = set()
@@ -240,6 +264,8 @@ def _edge_facts_nonzero(fn, l):
                 holds = True   # c < l  with c >= 0
             if op == "Le" and a[0] == "const" and a[1] >= 1 and b == ("local", l):
                 holds = True
+            if op == "Lt" and a[0] == "local" and b == ("local", l) and _is_unsigned(fn, a[1]):
+                holds = True   # u < l with u unsigned  =>  l >= 1
             if holds:
                 t = si.target_of(truth)
                 if t is not None:
